@@ -123,9 +123,9 @@ fn run_case(t: &[&str]) -> (String, F) {
         "hashslice" => { let mut r = Rec(vec![]); std::hash::Hash::hash_slice(&a[..], &mut r); let s: Vec<String> = r.0.iter().map(|w| format!("{:x}", w)).collect(); return (s.join(" "), f) }
         "add" => bits(&d128::addition(&a[0], &a[1], md, &mut f)),
         "sub" => bits(&d128::subtraction(&a[0], &a[1], md, &mut f)),
-        "mul" => bits(&d128::multiplication(&a[0], &a[1], md, &mut f)),
+        "mul" | "mul_ta" => bits(&d128::multiplication(&a[0], &a[1], md, &mut f)),
         "div" => bits(&d128::division(&a[0], &a[1], md, &mut f)),
-        "fma" => bits(&d128::fused_multiply_add(&a[0], &a[1], &a[2], md, &mut f)),
+        "fma" | "fma_ta" => bits(&d128::fused_multiply_add(&a[0], &a[1], &a[2], md, &mut f)),   // fma_ta: same call, run in the tiny_after build
         "sqrt" => bits(&a[0].square_root(md, &mut f)),
         "quantize" => bits(&d128::quantize(&a[0], &a[1], md, &mut f)),
         "rem" => bits(&d128::remainder(&a[0], &a[1], &mut f)),
